@@ -374,7 +374,73 @@ pub fn inject_client_aborts(spec: &mut Spec, rng: &mut Rng, p: f64) {
     }
 }
 
+/// C03 sub-family: an extended-protocol batch that cannot get a server (the only connection is
+/// held by somebody else for longer than connect_timeout) is answered by the pooler; the same
+/// client's later batches reach the server as written, nothing of the refused one with them.
+fn c03_refused_batch(rng: &mut Rng) -> Spec {
+    let mut cfg = single_pool("transaction", 1, 0);
+    cfg.set("connect_timeout", rng.range(100, 200));
+    cfg.pools[0].cache_size = if rng.chance(0.3) { 8 } else { 0 };
+    let mut holder = Prog::new(1);
+    holder.new_txn();
+    let t = holder.tag();
+    holder.simple(format!("BEGIN /* {} */", t));
+    let s = holder.select(1, 0, "");
+    holder.simple(s);
+    holder.think(rng.range(450, 900));
+    let t = holder.tag();
+    holder.simple(format!("COMMIT /* {} */", t));
+    holder.steps.push(Step::Terminate);
+    let mut p = Prog::new(2);
+    for _ in 0..rng.range(1, 2) {
+        p.new_txn();
+        if rng.chance(0.8) {
+            let m = { let d = rng.chance(0.5); ext_batch(&mut p, rng, "", "", 1, 0, 0, d, false) };
+            p.send(m);
+        } else {
+            let s = p.select(1, 0, "");
+            p.simple(s);
+        }
+    }
+    p.steps.push(Step::Wait { ev: "c1.done".into() });
+    p.think(rng.range(0, 20));
+    for _ in 0..rng.range(1, 3) {
+        p.new_txn();
+        if rng.chance(0.7) {
+            let rows = rng.range(0, 3);
+            let m = { let d = rng.chance(0.5); ext_batch(&mut p, rng, "", "", rows, 0, 0, d, false) };
+            p.send(m);
+        } else {
+            let s = p.select(2, 0, "");
+            p.simple(s);
+        }
+    }
+    p.steps.push(Step::Terminate);
+    let mut b = client(2, "app", "db", "apppw", 0, p.steps);
+    b.start = When::After { ev: "c1.s1.done".into(), delay_ms: rng.range(0, 20) };
+    let clients = vec![client(1, "app", "db", "apppw", rng.range(0, 10), holder.steps), b];
+    // (connect_timeout also bounds the login: no network on which a login takes that long)
+    let mut net = net_swarm(rng);
+    net.latency_ms.1 = net.latency_ms.1.min(1);
+    net.jitter_ms = net.jitter_ms.min(1);
+    net.sndbuf = net.sndbuf.max(4096);
+    if net.seg == "dribble" {
+        net.seg = "mixed".into();
+    }
+    let mut spec = Spec { config_toml: cfg.render(), hosts: cfg.hosts(), net, clients, end: EndSpec { deadline_ms: 900_000, calm_ms: 200 }, ..Default::default() };
+    spec.params = params_from(&cfg);
+    spec.params.insert("cache_on".into(), serde_json::json!(cfg.pools[0].cache_size > 0));
+    spec.family = "relay/batch_refused_at_checkout".into();
+    spec.params.insert("all_forwarded".into(), serde_json::json!(cfg.pools[0].cache_size == 0));
+    spec.params.insert("all_tagged".into(), serde_json::json!(true));
+    spec.oracles = vec!["c03_relay".into(), "liveness".into()];
+    spec
+}
+
 pub fn c03(rng: &mut Rng, thorough: bool, idx: u64) -> Spec {
+    if idx % 8 == 6 {
+        return c03_refused_batch(rng);
+    }
     let mut mix = Mix::swarm(rng);
     mix.big_replies = rng.chance(0.8);
     mix.failed_txn = rng.chance(0.6);
